@@ -19,6 +19,8 @@ import Proofs.RegexOrder
 import Martian.LexerId
 import Proofs.LexerRegexId
 import Proofs.TokenizerSpace
+import Martian.LexerActions
+import Proofs.LexerActions
 import Martian.Tokenizer
 import Proofs.Tokenizer
 import Gen.Facts
@@ -323,8 +325,7 @@ theorem lex_reconstructs (src : Martian.Lexer.Bytes) :
   lexAllRaw_reconstructs src
 
 /-- What the reported line of a token is: 1 + the newlines in the white-space
-tokens AND in the other non-comment tokens (string literals) before it + the
-number of comment tokens before it.  (Before the repair `da46d3b` of the line
+tokens, comments and other tokens (string literals) before it.  (Before the repair `da46d3b` of the line
 bookkeeping the newlines inside string literals were not counted: every error
 after a multi-line string literal pointed at too low a line.) -/
 theorem lex_line (src : Martian.Lexer.Bytes) (pre : List Tok) (t : Tok) (post : List Tok)
@@ -335,14 +336,23 @@ theorem lex_line (src : Martian.Lexer.Bytes) (pre : List Tok) (t : Tok) (post : 
 example : (lexAll [0x69, 0x6E, 0x20, 0x78, 0x0A, 0x23, 0x0A, 0x24]).map (fun t => (t.id, t.line)) =
     [(57354, 1), (57378, 1), (57348, 3)] := by decide
 
-/-- Witnesses of the line bookkeeping, replayed on the real scanner: after the
-repair, in `"a⏎b" x` the identifier is reported on line 2, column 4 (where it
-is); still recorded, not a totality defect: a comment cut short by an invalid
-byte advances the line although no newline was consumed, so in `#\xff` the
-INVALID token is reported on line 2 of a one-line file. -/
+/-- **The reported line is the real line**: the line of every token is 1 + the
+number of newline bytes in the source before it (`lex_reconstructs`: the texts
+of the tokens before it ARE the source up to it).  This holds since the two
+repairs of the line bookkeeping (newlines inside string literals; a comment
+advances the line by the newline it contains, not unconditionally). -/
+theorem lex_real_line (src : Martian.Lexer.Bytes) (pre : List Tok) (t : Tok) (post : List Tok)
+    (h : (lexAllRaw src).1 = pre ++ t :: post) : t.line = 1 + countNL (pre.map Tok.text).flatten :=
+  lexAllRaw_real_line src pre t post h
+
+/-- Witnesses of the line bookkeeping, replayed on the real scanner: in
+`"a⏎b" x` the identifier is reported on line 2, column 4 (before the first
+repair: line 1); in `#\xff` — a comment cut short by an invalid byte — the
+INVALID token is reported on line 1, column 2 (before the second repair: line 2
+of a one-line file). -/
 theorem line_count_quirks :
     (lexAll [0x22, 0x61, 0x0A, 0x62, 0x22, 0x20, 0x78]).map (fun t => (t.line, t.col)) = [(1, 1), (2, 4)] ∧
-    (lexAll [0x23, 0xFF]).map (fun t => (t.id, t.line)) = [(57348, 2)] := by decide
+    (lexAll [0x23, 0xFF]).map (fun t => (t.id, t.line, t.col)) = [(57348, 1, 2)] := by decide
 
 /-- The identifier rule of the tokenizer model (which runs the generic matcher
 on the parsed regenerated regex) is the hand-written recogniser. -/
@@ -373,5 +383,67 @@ theorem leading_space_set (c : UInt8) (r : Nat) (h : 0x80 ≤ r) :
 example : isUniSpace 0x2003 = true ∧ isUniSpace 0x200B = false ∧ isUniSpace 0xFEFF = false := by decide
 
 end tokenizer
+
+/-! ## The next layer: the grammar ACTIONS that convert token texts
+(`float_32`, resource values, `val_exp`, every `unquote` site, `src`, the
+`arr_list` dimension counter) as total functions on tokens -/
+
+section actions
+open Martian.LexerActions
+
+/-- Every action site, fed with a token text that ONE `nextToken` call of the
+tokenizer model can emit with the kind it needs (NUM_INT, NUM_FLOAT or
+LITSTRING), yields a value or a located error — never a panic.  (Hypothesis:
+one `nextToken` call on some head; `lexer_progress_full`/`lex_reconstructs`
+say that the scanner loop hands the parser exactly such tokens.) -/
+theorem actions_total (s : Site) (k : Kind) (head t : Martian.Lexer.Bytes) (h : emits k head t) :
+    act s k t ≠ .panic :=
+  Martian.LexerActions.actions_total s k head t h
+
+/-- … and an accepted kind is refused (located error) only for a float outside
+the 32-bit range at a resource/float_32 site, or at the `src` site (blank
+command). -/
+theorem actions_error_only (s : Site) (k : Kind) (head t : Martian.Lexer.Bytes) (h : emits k head t)
+    (ha : s.accepts k = true) (he : act s k t = .error) :
+    (k = .numFloat ∧ (s = .float32 ∨ s = .threads ∨ s = .memGb ∨ s = .vmemGb) ∧ parseFloat true t = none) ∨
+    (s = .src ∧ k = .litString) :=
+  Martian.LexerActions.actions_error_only s k head t h ha he
+
+/-- An emitted NUM_INT in a value expression becomes exactly its value, which
+fits in an int64. -/
+theorem val_int_exact (head t : Martian.Lexer.Bytes) (h : emits .numInt head t) :
+    valAction .numInt t = .ok (.int (intTokVal t)) ∧ inInt64 (intTokVal t) = true :=
+  valAction_int_exact h
+
+set_option exponentiation.threshold 1100 in
+example : emits .numFloat [0x31, 0x65, 0x33, 0x39, 0x2C] [0x31, 0x65, 0x33, 0x39] := by unfold emits; decide
+
+/-- The `int16` dimension counter of `arr_list` cannot wrap: k pairs of `[]`
+give k (< 2^15) or a located error. -/
+theorem arr_list_total (k : Nat) :
+    (∃ n : Int, arrList k = .ok n ∧ 0 ≤ n ∧ n < 2 ^ 15 ∧ n = k) ∨ (arrList k = .error ∧ 32767 < k) :=
+  arrList_total k
+
+/-- Negative witnesses, replayed on the real code by the harness: without its
+guard the counter wraps to −32768; `1e39` is a NUM_FLOAT on which a direct
+float32 conversion would panic while the action reports an error; and the
+actions do panic on texts the tokenizer does not emit. -/
+theorem arr_list_unguarded_wraps : arrListUnguarded 32768 = .ok (-32768) ∧ arrStepUnguarded 32767 = .ok (-32768) ∧
+    arrStep 32767 = .error :=
+  arrListUnguarded_wraps
+
+theorem float32_unchecked_panics :
+    numTok false [0x31, 0x65, 0x33, 0x39] = .float [0x31, 0x65, 0x33, 0x39] ∧
+    float32FloatUnchecked [0x31, 0x65, 0x33, 0x39] = .panic ∧
+    float32Float [0x31, 0x65, 0x33, 0x39] = .error :=
+  Martian.LexerActions.float32_unchecked_panics
+
+/-- Recorded (not a totality defect; the action accepts and mis-stores):
+`MapDim: 1 + $4` in `type_id` has no guard, 32767 inner array dimensions of a
+map type wrap it to −32768. -/
+theorem map_dim_wraps : mapDim 32767 = -32768 ∧ (∀ n : Int, 0 ≤ n → n < 32767 → mapDim n = n + 1) :=
+  mapDim_wraps
+
+end actions
 
 end Props.C08
